@@ -400,6 +400,14 @@ func (z *zwriter) generate() {
 	if z.rnd(3) == 0 {
 		step = 1
 	}
+	wide := z.rnd(5) == 0
+	if wide { // a wide range walked in few, large steps (stop-start far above 65535)
+		start = int64(z.rnd(1 << 30))
+		step = int64(10000 + z.rnd(200000))
+		if z.rnd(3) == 0 {
+			step = 65536
+		}
+	}
 	stop := start + (count-1)*step + int64(z.rnd(int(step)))
 	rng := fmt.Sprintf("%d-%d", start, stop)
 	if step != 1 || z.rnd(3) == 0 {
@@ -432,6 +440,9 @@ func (z *zwriter) generate() {
 	}
 	lp, rp := mk(), mk()
 	tmplType := []uint16{1, 12, 5, 15}[z.rnd(4)]
+	if wide && tmplType == 1 {
+		tmplType = 12 // the iterator value does not fit an address octet
+	}
 	var ttlTok, classTok string
 	cur, why, canOmit := z.currentTTL()
 	ttl := uint32(60 + z.rnd(5000))
